@@ -79,14 +79,14 @@ type writeIn struct {
 }
 
 type readIn struct {
-	AIn   int    `json:"ain"`   // 0 = nil attributes, 1 = fresh map
-	Pkt   *pktIn `json:"pkt"`   // RTP packet delivered (RTP reads)
-	RTCP  []int  `json:"rtcp"`  // RTCP packet kinds delivered (RTCP reads)
+	AIn   int    `json:"ain"`           // 0 = nil attributes, 1 = fresh map
+	Pkt   *pktIn `json:"pkt"`           // RTP packet delivered (RTP reads)
+	RTCP  []int  `json:"rtcp"`          // RTCP packet kinds delivered (RTCP reads)
 	Raw   string `json:"raw,omitempty"` // explicit bytes (hex) instead of Pkt / RTCP
-	Trunc int    `json:"trunc"` // deliver only the first Trunc bytes (-1 = all)
-	AMode int    `json:"amode"` // 0 = transport returns the input map, 1 = nil, 2 = a map of its own
-	Err   int    `json:"err"`   // 0 = nil, else sentinel id (bytes are still put in the buffer)
-	ErrN  int    `json:"errn"`  // n returned together with the error
+	Trunc int    `json:"trunc"`         // deliver only the first Trunc bytes (-1 = all)
+	AMode int    `json:"amode"`         // 0 = transport returns the input map, 1 = nil, 2 = a map of its own
+	Err   int    `json:"err"`           // 0 = nil, else sentinel id (bytes are still put in the buffer)
+	ErrN  int    `json:"errn"`          // n returned together with the error
 }
 
 type cwriteIn struct {
@@ -97,9 +97,9 @@ type cwriteIn struct {
 type memberIn struct {
 	Kind   int        `json:"kind"`
 	Params []int      `json:"params,omitempty"`
-	Var    int        `json:"var,omitempty"`   // option variant
-	CErr   int        `json:"cerr,omitempty"`  // Close error of a mock / cc estimator: 0 nil, id, negative = wrapped id
-	Sub    []memberIn `json:"sub,omitempty"`   // kind 16: nested chain
+	Var    int        `json:"var,omitempty"`  // option variant
+	CErr   int        `json:"cerr,omitempty"` // Close error of a mock / cc estimator: 0 nil, id, negative = wrapped id
+	Sub    []memberIn `json:"sub,omitempty"`  // kind 16: nested chain
 	// function-valued options (0 = none of them; old replay files):
 	//   packetdump (10, 11): bit 13 set; bits 0..7 = RTCP packet kinds rejected by RTCPPerPacketFilter
 	//   (order of rtcpKinds), bit 8 RTPFilter rejects odd payload types, bit 9 RTCPFilter rejects
@@ -131,8 +131,8 @@ type caseIn struct {
 	CWrites []cwriteIn `json:"cwrites"`
 	Nacks   [][]uint16 `json:"nacks,omitempty"` // after the writes: NACK feedback read through the chain
 	// the mock member directly below the (single) responder taps the responder's retransmissions
-	Inject bool `json:"inject,omitempty"`
-	Note    string     `json:"note,omitempty"`
+	Inject bool   `json:"inject,omitempty"`
+	Note   string `json:"note,omitempty"`
 }
 
 // ---------------------------------------------------------------- packets
@@ -337,12 +337,12 @@ type ccall struct {
 }
 
 type transport struct {
-	mu      sync.Mutex
-	cfg     cfgIn
-	sent    map[uint16][][]byte // app packets by sequence number (for recognising plain retransmissions)
-	script  map[int][]respIn
-	calls   map[int][]call
-	async   []call
+	mu        sync.Mutex
+	cfg       cfgIn
+	sent      map[uint16][][]byte // app packets by sequence number (for recognising plain retransmissions)
+	script    map[int][]respIn
+	calls     map[int][]call
+	async     []call
 	sentinels map[int]error
 	// RTCP writer
 	cscript map[int][]respIn
@@ -410,10 +410,10 @@ func (r *scriptedReader) Read(b []byte, a interceptor.Attributes) (int, intercep
 
 type mock struct {
 	interceptor.NoOp
-	mu                     sync.Mutex
-	closed, unbL, unbR     int
-	wcount                 int
-	cerr                   error
+	mu                 sync.Mutex
+	closed, unbL, unbR int
+	wcount             int
+	cerr               error
 	// tap: this mock sits directly below the responder and records what the responder injects
 	tapOn bool
 	taps  []call
@@ -459,7 +459,7 @@ func (e *estimator) AddStream(_ *interceptor.StreamInfo, w interceptor.RTPWriter
 	return w
 }
 func (e *estimator) WriteRTCP([]rtcp.Packet, interceptor.Attributes) error { return nil }
-func (e *estimator) GetTargetBitrate() int                                { return 1 }
+func (e *estimator) GetTargetBitrate() int                                 { return 1 }
 func (e *estimator) OnTargetBitrateChange(func(int))                       {}
 func (e *estimator) GetStats() map[string]any                              { return nil }
 func (e *estimator) Close() error                                          { return e.cerr }
@@ -492,10 +492,10 @@ func (s *startedRecorder) Start() {
 }
 
 type built struct {
-	started []chan struct{}
-	mocks  []*mock
-	getter stats.Getter
-	statsIdx int
+	started   []chan struct{}
+	mocks     []*mock
+	getter    stats.Getter
+	statsIdx  int
 	sentinels map[int]error
 }
 
@@ -632,6 +632,10 @@ func factoryOf(m memberIn, b *built, idx int) (interceptor.Factory, error) { //n
 					return p.Marshal()
 				}),
 				packetdump.RTCPBinaryFormatter(func(p rtcp.Packet, _ interceptor.Attributes) ([]byte, error) {
+					if p == nil {
+						return nil, errFormat
+					}
+
 					return p.Marshal()
 				}))
 		}
@@ -735,6 +739,9 @@ func dumpOpts(opt int) []packetdump.PacketDumperOption {
 				return p.Header.Marshal()
 			}),
 			packetdump.RTCPBinaryFormatter(func(p rtcp.Packet, _ interceptor.Attributes) ([]byte, error) {
+				if p == nil { // only a broken member hands a nil packet on; the oracle reports the batch
+					return nil, errFormat
+				}
 				if opt&(1<<12) != 0 && kindOf(p) == 206 {
 					return nil, errFormat
 				}
@@ -765,7 +772,7 @@ func rtcpOf(kind int, c cfgIn, i int) rtcp.Packet {
 		return &rtcp.PictureLossIndication{SenderSSRC: 9, MediaSSRC: c.SSRC}
 	case 215:
 		return &rtcp.TransportLayerCC{
-			Header: rtcp.Header{Count: rtcp.FormatTCC, Type: rtcp.TypeTransportSpecificFeedback, Length: 5},
+			Header:     rtcp.Header{Count: rtcp.FormatTCC, Type: rtcp.TypeTransportSpecificFeedback, Length: 5},
 			SenderSSRC: 9, MediaSSRC: c.SSRC, BaseSequenceNumber: uint16(i), PacketStatusCount: 1, ReferenceTime: 1, //nolint:gosec
 			PacketChunks: []rtcp.PacketStatusChunk{&rtcp.RunLengthChunk{Type: rtcp.TypeTCCRunLengthChunk, PacketStatusSymbol: rtcp.TypeTCCPacketReceivedSmallDelta, RunLength: 1}},
 			RecvDeltas:   []*rtcp.RecvDelta{{Type: rtcp.TypeTCCPacketReceivedSmallDelta, Delta: 250}},
@@ -822,10 +829,10 @@ type result struct {
 // attributes a Read returned): deep copy taken before the call; the caller's object after the call
 // returned / after Close; the object the transport was handed, re-read after the call / after Close
 type aob struct {
-	kind, op               int
-	cp, cret, cend         []int64
-	tret, tend             []int64
-	recheckC, recheckT     func() []int64
+	kind, op           int
+	cp, cret, cend     []int64
+	tret, tend         []int64
+	recheckC, recheckT func() []int64
 }
 
 // one retransmission the tapped responder emitted and what reached the transport for it
@@ -1118,7 +1125,13 @@ func runCase(in caseIn) (res *result) { //nolint:cyclop,gocyclo,gocognit,maintid
 				h := op.Pkt.H.build()
 				p := rtp.Packet{Header: h, Payload: op.Pkt.payload()}
 				var merr error
-				raw, merr = p.Marshal()
+				if h.Padding && h.PaddingSize == 0 {
+					// legacy padding form: the padding (count last) is part of the payload bytes
+					raw, merr = h.Marshal()
+					raw = append(raw, p.Payload...)
+				} else {
+					raw, merr = p.Marshal()
+				}
 				if merr != nil {
 					panic(merr)
 				}
